@@ -429,6 +429,7 @@ fn in_net_any(ip: &IpAddr, nets: &[String]) -> bool {
 
 fn do_world(w: &World, rep: &mut Reporter, widx: u64) {
     HEARTBEAT.fetch_add(1, Ordering::Relaxed);
+    rep.breadcrumb(|| json!({"world": w.to_json(), "world_index": widx}));
     mon::set_quiet(true);
     let r = mon::catch(|| run_world(w));
     mon::set_quiet(false);
